@@ -9,6 +9,13 @@ ZERO_TOL = 1e-6
 SDP_TOL = 1e-4       # SDP-based measures: the library's own accuracy statement without MOSEK (tests/test_entangle/test_entangle_symext.py asserts 1e-4)
 
 
+def _is_guard(ex):
+    try:
+        return float(str(ex)) <= -1e-4
+    except ValueError:
+        return False
+
+
 def gv(v):
     return np.array([complex(z[0], z[1]) for z in v])
 
@@ -48,7 +55,16 @@ def evaluate(ctx, rho, dims, sdp, label, heavy_only_small=False):
 
     def measure(name, f, tol=ZERO_TOL):
         try:
-            v = float(np.real(timed(name, f)))
+            try:
+                v = float(np.real(timed(name, f)))
+            except AssertionError as ex:
+                # the SDP relative-entropy routines end with their own accuracy guard `assert ree > -1e-4, str(ree)`: when the conic solver
+                # returns an inaccurate point (ill-conditioned states) the routine REFUSES to answer.  A refusal is not a verdict of
+                # 'entangled' and not a value: it is counted as inconclusive (evidence: sdp_guard_aborts), never as a pass.
+                if tol == SDP_TOL and _is_guard(ex):
+                    ctx.extra['sdp_guard_aborts'] = ctx.extra.get('sdp_guard_aborts', 0) + 1
+                    return
+                raise
             ev.append(dict(op='measure', name=name, finite=bool(np.isfinite(v)), zero=bool(np.isfinite(v) and abs(v) <= tol), raw=repr(v)))
         except Exception as ex:
             ev.append(dict(op='exception', crit=name, error=type(ex).__name__ + ': ' + str(ex)[:120]))
@@ -89,7 +105,7 @@ def run(ctx):
     ctx.rule = ('TLC-simulated construction histories of separable states (Gaussian-integer product vectors with components in -2..2, 1..9 terms, dims (2,2),(2,3),(3,2),(3,3),(2,4),(2,2,2),(2,3,2); '
                 'computational-basis, repeated, nearly parallel and pure product terms; local unitaries and party permutations) evaluated by every criterion; Werner / isotropic families on rational grids '
                 'for both polarities; the symmetric-extension SDPs on a subset; distinct by construction history')
-    ctx.assumptions = ['TLC/SANY correct', 'closed-form measures are called zero when |v| <= 1e-6 and finite', 'SDP-based tests inherit the solver tolerance of the library']
+    ctx.assumptions = ['TLC/SANY correct', 'closed-form measures are called zero when |v| <= 1e-6 and finite', 'SDP-based tests inherit the solver tolerance of the library', 'an SDP relative-entropy routine that aborts with its own accuracy guard (AssertionError carrying the negative value) has not answered: inconclusive, counted in sdp_guard_aborts']
     ctx.not_covered = ['Haar-random irrational product vectors (same code path)', 'Horodecki families (covered as exact objects by C18)']
     ctx.tolerances = {'zero': ZERO_TOL, 'zero_sdp_measures': SDP_TOL}
     traces = []
